@@ -9,7 +9,7 @@ both readers (stream and from-chars) bind the options through this one function.
 """
 import re
 
-from .core import AnchorLost, hir_calls, res_name, short, walk
+from .core import AnchorLost, hir_calls, pat_leaves, res_name, short, walk
 
 EXPLANATION = (
     "Effect-summary and data-flow rules over the typed HIR of MachineState::read_term_body and "
@@ -113,3 +113,67 @@ def run(ctx, R):
         R.ob("C45:%s-reader:binds-options-through-read_term_body" % label, rb in names,
              "%s must bind variables/variable_names/singletons through read_term_body" % short(fn), F.where(fn))
     R.sample({"occurrence_table": tname, "flags": flags, "sort_key_is_index": key_is_index})
+    options_only_after_the_traversal(F, R, rb, wo, hb)
+    every_variable_of_the_text_has_its_own_entry(F, R)
+
+
+def options_only_after_the_traversal(F, R, rb, wo, hb):
+    """read_term_body hands the option lists to write_read_term_options once, after the traversal that fills the occurrence
+    table: a second call (a shortcut for `simple` terms) delivers lists that were not derived from the term read — a clause
+    whose whole text is one variable is such a term."""
+    calls = [x for x in walk(hb) if x["k"] in ("MethodCall", "Call") and (x.get("resolved") or x.get("callee")) == wo]
+    loops = [x["ln"] for x in walk(hb) if x["k"] in ("Loop", "ForLoop") and any(re.search(r"::stackful_preorder_iter$", r) for _, r, _ in hir_calls(x))]
+    if not loops:
+        loops = [x["ln"] for x in walk(hb) if x["k"] in ("Call", "MethodCall") and re.search(r"::stackful_preorder_iter$", x.get("resolved") or x.get("callee") or "")]
+    ok = len(calls) == 1 and loops and calls[0]["ln"] > min(loops)
+    R.ob("C45:options:written-once-after-the-traversal", ok,
+         "read_term_body calls write_read_term_options %d time(s) (lines %s; traversal at line %s): every delivery of variables/1, variable_names/1 and singletons/1 has to come after "
+         "the one traversal of the term read" % (len(calls), [c["ln"] for c in calls], loops[:1]), F.where(rb))
+
+
+def every_variable_of_the_text_has_its_own_entry(F, R):
+    """The option lists are made from the dictionary the term writer fills (var_dict). Every arm of write_term_to_heap that
+    writes a variable (named or anonymous, at the root or below it) puts it there, and an anonymous variable is keyed by the
+    cell that is the variable — a key taken from anything shared by neighbouring variables (the heap length, which an
+    anonymous variable does not advance) makes a run of them collide: `f(_,_).` then reports one variable."""
+    tw = [p for p in F.items if re.search(r"read::TermWriter::<'a>::write_term_to_heap$|read::TermWriter<.*>::write_term_to_heap$", p)]
+    if len(tw) != 1:
+        raise AnchorLost("TermWriter::write_term_to_heap (%d)" % len(tw))
+    body = F.hir(tw[0])["body"]
+    arms = []
+    for m in walk(body):
+        if m["k"] != "Match":
+            continue
+        for arm in m["arms"]:
+            for leaf in pat_leaves(arm["pat"]):
+                v = [y["res"]["def"].rsplit("::", 1)[-1] for y in walk(leaf) if y.get("k") in ("PTupleStruct", "PStruct", "PPath") and re.search(r"TermRef::(AnonVar|Var)$", (y.get("res") or {}).get("def") or "")]
+                if v:
+                    root = any((y.get("res") or {}).get("def", "").endswith("Level::Root") for y in walk(leaf))
+                    arms.append((v[0], root, arm))
+    if len(arms) < 4:
+        raise AnchorLost("write_term_to_heap: arms for TermRef::Var / TermRef::AnonVar (%d)" % len(arms))
+    n = 0
+    for v, root, arm in arms:
+        ins = [x for x in walk(arm["body"]) if x["k"] == "MethodCall" and x["name"] == "insert" and any(y.get("k") == "Field" and y.get("name") == "var_dict" for y in walk(x["recv"]))]
+        n += 1
+        key = "C45:term-writer:%s%s" % (v, ":root" if root else "")
+        R.ob(key + ":enters-the-dictionary", len(ins) >= 1,
+             "write_term_to_heap, arm for %s%s (line %s): the variable is written to the heap but not entered into var_dict, so variables/1 does not report it" % (v, " at the root" if root else "", arm["ln"]), F.where(tw[0]))
+        if v != "AnonVar":
+            continue
+        for x in ins:
+            k, val = x["args"][0], x["args"][1]
+            if not (k["k"] == "Call" and (k.get("ctor") or "").endswith("VarKey::AnonVar")):
+                continue
+            kl = {y["res"]["local"] for y in walk(k) if y["k"] == "Path" and "local" in y.get("res", {})}
+            vl = {y["res"]["local"] for y in walk(val) if y["k"] == "Path" and "local" in y.get("res", {})}
+            if val["k"] == "Path":
+                # the value is a local computed earlier in the arm: follow one let
+                for lt in walk(arm["body"]):
+                    if lt["k"] == "Let" and "init" in lt and lt["pat"].get("name") in vl:
+                        vl = {y["res"]["local"] for y in walk(lt["init"]) if y["k"] == "Path" and "local" in y.get("res", {})} - {"self", "term"}
+            R.ob(key + ":keyed-by-its-own-cell", bool(kl) and kl <= vl,
+                 "write_term_to_heap, arm for AnonVar%s (line %s): the dictionary key is made from %s and the variable's cell from %s: a key that is not the variable's own location "
+                 "is shared by a run of anonymous variables (f(_,_) reports one variable)" % (" at the root" if root else "", arm["ln"], sorted(kl), sorted(vl)), F.where(tw[0]))
+    R.floor("variable arms of write_term_to_heap", n, 4)
+
